@@ -220,12 +220,16 @@ NATIVE_TWINS = {
     # property -> (test file in bounded_native/, [test fn names or None for all], stated bound)
     'C17': ('c17_registration_model', None,
             '4000 pseudo-random sequences x 16 operations (register, unregister, toggle side, move either king) on a two-king board vs a reference multiset of (placement, side to move) and a reference stack'),
+    'C06': ('c06_annotation_model', None,
+            '22 positions (14 pseudo-random openings, discovered check / mate by en passant, by a quiet move, double check, promotion, back-rank mate, stalemate threat, castling check): every listed move is annotated with the verdict of its successor; player_is_in_check / player_is_in_checkmate / game_ending agree with a brute-force reading'),
     'C07': ('c07_search_model', None,
             '16 positions (10 pseudo-random openings, mated, stalemated, single reply, in check, promotion next, en passant) x depths 0..3, fresh context: legal move / right error, every observable of the board unchanged, no panic'),
     'C08': ('c08_minimax_model', None,
             '9 positions x depths 1..3 with a fresh context and 4 games x 8 plies at depth 3 with one reused context: reported score == unpruned uncached reference minimax, returned move attains it'),
-    'C14': ('c14_c15_game_model', ['coordinate_pairs_accepted_iff_legal_played_exactly_rejected_without_effect'],
-            '5 positions x all 4096 coordinate pairs: accepted iff legal, successor board and history on acceptance, nothing changed on rejection'),
+    'C10': ('c10_perft_model', None,
+            '4 positions x depths 0..3 x rayon pools {1,2,3,4,7,16} x fresh/reused generator: count_positions == reference count (20, 420, 9322, 206603 from the start position), board unchanged'),
+    'C14': ('c14_c15_game_model', ['coordinate_pairs_accepted_iff_legal_played_exactly_rejected_without_effect', 'typed_labels_accepted_iff_legal_played_exactly_rejected_without_effect'],
+            '5 positions x all 4096 coordinate pairs (accepted iff legal, successor board and history on acceptance, nothing changed on rejection); notation strings, bounded only: 6 games x 12 plies typed as labels (2 crafted lines with tempo loss), near-miss labels of the other side / previous position rejected without effect'),
     'C15': ('c14_c15_game_model', ['engine_move_is_a_legal_move_whenever_one_exists'],
             '5 positions (incl. supplied ones) x 8 engine selections at depth 2: a legal move, never an error, board unchanged'),
 }
